@@ -75,9 +75,88 @@ func c09Script(id uint32) c09Scr {
 		return c09Scr{"async", 0}
 	case 15:
 		return c09Scr{"err", 103}
+	case 6, 7:
+		// the application callback succeeds without a result, the engine call made by the library
+		// afterwards (Node.History / Presence / PresenceStats / Publish) decides: see c09EngineCode
+		return c09Scr{"engine", 0}
 	}
 	return c09Scr{"ok", 0}
 }
+
+// outcome of the engine step for the scripted fakes: channel "a" fails with a typed client error,
+// "b" with an untyped error (=> internal, 100), other channels succeed. 0 = success.
+func c09EngineCode(kind c09Kind, ch string) uint32 {
+	switch kind {
+	case c09History, c09Presence, c09PresenceStats, c09Publish:
+	default:
+		return 0 // no engine step after the callback
+	}
+	switch ch {
+	case "a":
+		switch kind {
+		case c09History:
+			return ErrorUnrecoverablePosition.Code
+		case c09Publish:
+			return ErrorTooManyRequests.Code
+		}
+		return ErrorNotAvailable.Code
+	case "b":
+		return ErrorInternal.Code
+	}
+	return 0
+}
+
+// what the model is told for a script: an engine outcome is an error reply or a result
+func c09Effective(s c09Scr, kind c09Kind, ch string) c09Scr {
+	if s.Kind != "engine" {
+		return s
+	}
+	if code := c09EngineCode(kind, ch); code != 0 {
+		return c09Scr{"err", code}
+	}
+	return c09Scr{"ok", 0}
+}
+
+type c09FailBroker struct{ *MemoryBroker }
+
+func c09EngineErr(kind c09Kind, ch string) error {
+	switch c09EngineCode(kind, ch) {
+	case 0:
+		return nil
+	case ErrorInternal.Code:
+		return errors.New("engine failure")
+	case ErrorUnrecoverablePosition.Code:
+		return ErrorUnrecoverablePosition
+	case ErrorTooManyRequests.Code:
+		return ErrorTooManyRequests
+	}
+	return ErrorNotAvailable
+}
+
+func (b *c09FailBroker) Publish(ch string, data []byte, opts PublishOptions) (PublishResult, error) {
+	if err := c09EngineErr(c09Publish, ch); err != nil {
+		return PublishResult{}, err
+	}
+	return b.MemoryBroker.Publish(ch, data, opts)
+}
+
+func (b *c09FailBroker) History(ch string, opts HistoryOptions) ([]*Publication, StreamPosition, error) {
+	if err := c09EngineErr(c09History, ch); err != nil {
+		return nil, StreamPosition{}, err
+	}
+	return b.MemoryBroker.History(ch, opts)
+}
+
+type c09FailPresence struct{}
+
+func (c09FailPresence) Presence(ch string) (map[string]*ClientInfo, error) {
+	return map[string]*ClientInfo{}, c09EngineErr(c09Presence, ch)
+}
+func (c09FailPresence) PresenceStats(ch string) (PresenceStats, error) {
+	return PresenceStats{}, c09EngineErr(c09PresenceStats, ch)
+}
+func (c09FailPresence) AddPresence(string, string, *ClientInfo) error { return nil }
+func (c09FailPresence) RemovePresence(string, string, string) error   { return nil }
 
 func (s c09Scr) coq() string {
 	switch s.Kind {
@@ -108,6 +187,7 @@ type c09Cmd struct {
 	Chan   string   `json:"chan"`
 	Tok    bool     `json:"tok"`
 	Script c09Scr   `json:"script"`
+	RawScript string `json:"raw_script,omitempty"`
 	names  []string `json:"-"`
 }
 
@@ -207,6 +287,11 @@ func c09Abstract(cmd *protocol.Command) c09Cmd {
 	if out.Fields == nil {
 		out.Fields = []int{}
 	}
+	if len(out.Fields) > 0 {
+		// the request fields are listed in the order dispatchCommand tests them
+		out.RawScript = out.Script.Kind
+		out.Script = c09Effective(out.Script, c09Kind(out.Fields[0]), out.Chan)
+	}
 	return out
 }
 
@@ -251,6 +336,8 @@ type c09Harness struct {
 	curID   uint32
 	pending []*c09Pending
 	nextTok int
+	panics  int
+	useEngine bool // the callback being answered returns no result: the library calls the engine
 	marker  chan struct{}
 	niceID  uint32
 	pinged  bool // driver-side: a server ping was sent and no pong frame since
@@ -346,11 +433,17 @@ func (h *c09Harness) invoke(kind c09Kind, ch string, finish func(err error)) {
 	if s.Kind == "async" {
 		p := &c09Pending{tok: h.nextTok, kind: kind, ch: ch}
 		h.nextTok++
-		p.done = func(res c09Scr) { finish(c09Err(res)) }
+		p.done = func(res c09Scr) {
+			h.useEngine = res.Kind == "engine"
+			finish(c09Err(res))
+			h.useEngine = false
+		}
 		h.pending = append(h.pending, p)
 		return
 	}
+	h.useEngine = s.Kind == "engine"
 	finish(c09Err(s))
+	h.useEngine = false
 	if s.Kind == "disc" {
 		h.waitClosed() // the close runs in its own goroutine: make it take effect before the reader goes on
 	}
@@ -362,6 +455,7 @@ type c09Label struct {
 	Malformed bool     `json:"malformed,omitempty"`
 	Tok       int      `json:"tok,omitempty"`
 	Res       c09Scr   `json:"res,omitempty"`
+	RawRes    string   `json:"raw_res,omitempty"`
 	Raw       []byte   `json:"raw,omitempty"`
 }
 
@@ -461,6 +555,12 @@ func c09RunCase(t *testing.T, r *rand.Rand, fixed []func(h *c09Harness) *c09Labe
 	if err != nil {
 		t.Fatal(err)
 	}
+	mb, err := NewMemoryBroker(node, MemoryBrokerConfig{})
+	if err != nil {
+		t.Fatal(err)
+	}
+	node.SetBroker(&c09FailBroker{MemoryBroker: mb})
+	node.SetPresenceManager(c09FailPresence{})
 	node.OnCommandRead(func(_ *Client, e CommandReadEvent) error {
 		h.curID = e.Command.Id
 		return nil
@@ -493,22 +593,46 @@ func c09RunCase(t *testing.T, r *rand.Rand, fixed []func(h *c09Harness) *c09Labe
 		}
 		if c09Has(cfg.Handlers, c09Publish) {
 			c.OnPublish(func(e PublishEvent, cb PublishCallback) {
-				h.invoke(c09Publish, e.Channel, func(err error) { cb(PublishReply{Result: &PublishResult{}}, err) })
+				h.invoke(c09Publish, e.Channel, func(err error) {
+					rep := PublishReply{Result: &PublishResult{}}
+					if h.useEngine {
+						rep.Result = nil
+					}
+					cb(rep, err)
+				})
 			})
 		}
 		if c09Has(cfg.Handlers, c09Presence) {
 			c.OnPresence(func(e PresenceEvent, cb PresenceCallback) {
-				h.invoke(c09Presence, e.Channel, func(err error) { cb(PresenceReply{Result: &PresenceResult{}}, err) })
+				h.invoke(c09Presence, e.Channel, func(err error) {
+					rep := PresenceReply{Result: &PresenceResult{}}
+					if h.useEngine {
+						rep.Result = nil
+					}
+					cb(rep, err)
+				})
 			})
 		}
 		if c09Has(cfg.Handlers, c09PresenceStats) {
 			c.OnPresenceStats(func(e PresenceStatsEvent, cb PresenceStatsCallback) {
-				h.invoke(c09PresenceStats, e.Channel, func(err error) { cb(PresenceStatsReply{Result: &PresenceStatsResult{}}, err) })
+				h.invoke(c09PresenceStats, e.Channel, func(err error) {
+					rep := PresenceStatsReply{Result: &PresenceStatsResult{}}
+					if h.useEngine {
+						rep.Result = nil
+					}
+					cb(rep, err)
+				})
 			})
 		}
 		if c09Has(cfg.Handlers, c09History) {
 			c.OnHistory(func(e HistoryEvent, cb HistoryCallback) {
-				h.invoke(c09History, e.Channel, func(err error) { cb(HistoryReply{Result: &HistoryResult{}}, err) })
+				h.invoke(c09History, e.Channel, func(err error) {
+					rep := HistoryReply{Result: &HistoryResult{}}
+					if h.useEngine {
+						rep.Result = nil
+					}
+					cb(rep, err)
+				})
 			})
 		}
 		if c09Has(cfg.Handlers, c09Rpc) {
@@ -598,7 +722,20 @@ func c09RunCase(t *testing.T, r *rand.Rand, fixed []func(h *c09Harness) *c09Labe
 
 	runFrame := func(raw []byte) {
 		done := make(chan bool, 1)
-		go func() { done <- HandleReadFrame(client, bytes.NewReader(raw), 65536) }()
+		go func() {
+			defer func() {
+				if rec := recover(); rec != nil {
+					// the library panicked while handling the frame: reported as a reply with an id no
+					// command ever carried (the "never more replies than commands" rule then fails), and the
+					// transport closes the connection as a real reader would
+					h.log(c09Ev{Kind: "reply", ID: 4294967295, Code: 4294967295})
+					h.panics++
+					_ = closeFn()
+					done <- false
+				}
+			}()
+			done <- HandleReadFrame(client, bytes.NewReader(raw), 65536)
+		}()
 		select {
 		case ok := <-done:
 			if !ok {
@@ -661,6 +798,8 @@ func c09RunCase(t *testing.T, r *rand.Rand, fixed []func(h *c09Harness) *c09Labe
 				if p.tok == lab.Tok {
 					h.pending = append(h.pending[:k], h.pending[k+1:]...)
 					p.done(lab.Res)
+					lab.RawRes = lab.Res.Kind
+					lab.Res = c09Effective(lab.Res, p.kind, p.ch)
 					if lab.Res.Kind == "disc" {
 						if c, _ := h.closedNow(); !c {
 							h.waitClosed()
@@ -677,10 +816,13 @@ func c09RunCase(t *testing.T, r *rand.Rand, fixed []func(h *c09Harness) *c09Labe
 		for len(h.pending) > 0 {
 			p := h.pending[r.Intn(len(h.pending))]
 			res := c09Scr{Kind: "ok"}
-			if r.Intn(4) == 0 {
+			switch r.Intn(5) {
+			case 0:
 				res = c09Scr{"err", 109}
+			case 1:
+				res = c09Scr{"engine", 0}
 			}
-			lab := c09Label{Kind: "complete", Tok: p.tok, Res: res}
+			lab := c09Label{Kind: "complete", Tok: p.tok, Res: c09Effective(res, p.kind, p.ch), RawRes: res.Kind}
 			for k, q := range h.pending {
 				if q == p {
 					h.pending = append(h.pending[:k], h.pending[k+1:]...)
@@ -718,6 +860,8 @@ func c09GenLabel(r *rand.Rand, h *c09Harness, cfg c09Config) *c09Label {
 			if !cfg.Nice || r.Intn(4) == 0 {
 				res = c09Scr{"disc", 3500}
 			}
+		case 3, 4:
+			res = c09Scr{"engine", 0}
 		}
 		return &c09Label{Kind: "complete", Tok: p.tok, Res: res}
 	}
@@ -761,6 +905,9 @@ func c09GenLabel(r *rand.Rand, h *c09Harness, cfg c09Config) *c09Label {
 		switch {
 		case !auth && y < 70 && k == 0:
 			fields = []int{int(c09Connect)}
+			if r.Intn(3) == 0 { // connect together with another request field, before authentication
+				fields = append(fields, int(c09Ping)+r.Intn(11))
+			}
 		case y < 8:
 			// pong / empty command
 			id = 0
@@ -769,6 +916,9 @@ func c09GenLabel(r *rand.Rand, h *c09Harness, cfg c09Config) *c09Label {
 			}
 		case y < 12:
 			fields = []int{int(c09Connect)}
+			if r.Intn(2) == 0 { // connect + X (also after authentication)
+				fields = append(fields, int(c09Ping)+r.Intn(11))
+			}
 		case y < 16:
 			fields = []int{int(c09Ping)}
 			if r.Intn(2) == 0 {
@@ -901,6 +1051,16 @@ func TestVerifC09(t *testing.T) {
 		{connect, frame()},                                                       // empty frame
 		{connect, frame(cmd(2, "", int(c09Rpc)), cmd(10, "", int(c09Rpc)), cmd(3, "", int(c09Rpc)))},
 		{connect, frame(cmd(11, "", int(c09Rpc))), frame(cmd(9, "", int(c09Rpc))), completeFirst(c09Scr{"disc", 3500})},
+	}
+	for x := int(c09Ping); x <= int(c09SubRefresh); x++ {
+		// first frame carries connect together with another request: must be handled as connect only
+		corpus = append(corpus, []func(h *c09Harness) *c09Label{frame(cmd(1, "a", int(c09Connect), x)), frame(cmd(2, "", int(c09Rpc)))})
+		corpus = append(corpus, []func(h *c09Harness) *c09Label{connect, frame(cmd(2, "a", int(c09Connect), x))})
+	}
+	// the engine step after a successful callback fails (typed on channel a, untyped on b) or succeeds (c)
+	for _, k := range []int{int(c09History), int(c09Presence), int(c09PresenceStats), int(c09Publish)} {
+		corpus = append(corpus, []func(h *c09Harness) *c09Label{connect, frame(cmd(6, "a", k)), frame(cmd(7, "b", k)), frame(cmd(22, "c", k)), frame(cmd(3, "", int(c09Rpc)))})
+		corpus = append(corpus, []func(h *c09Harness) *c09Label{connect, frame(cmd(11, "a", k)), frame(cmd(12, "b", k)), completeFirst(c09Scr{Kind: "engine"}), completeFirst(c09Scr{Kind: "engine"}), frame(cmd(3, "", int(c09Rpc)))})
 	}
 	for i := 0; i < w.N; i++ {
 		if !w.Want(i) {
